@@ -27,13 +27,14 @@ Definition Wpc (c : cfg) (p : pc) : pc :=
   | ESlot v k => ESlot v (wrapk c k)
   | x => x
   end.
+Definition Wacc (c : cfg) (a : acc) : acc := (fst a, Wid c (snd a)).
 Definition Wth (c : cfg) (th : thread) : thread :=
   {| prog := prog th; tpc := Wpc c (tpc th); held := map (Wid c) (held th); taken := map (Wid c) (taken th);
-     results := map (Wres c) (results th) |}.
+     accs := map (Wacc c) (accs th); results := map (Wres c) (results th) |}.
 Definition Wsh (c : cfg) (s : shared) : shared :=
   {| hv := hv s; hk := wrapk c (hk s); nxt := nxt s; nv := nv s; sver := map (wrapk c) (sver s);
      ids := map (Wid c) (ids s); fl := fl s; boxed := map (Wid c) (boxed s); wins := map (Wid c) (wins s);
-     miss := miss s |}.
+     miss := miss s; nfin := nfin s |}.
 Definition Wst (c : cfg) (s : st) : st := {| sh := Wsh c (sh s); threads := map (Wth c) (threads s) |}.
 
 (* the windows, read off the unbounded (ghost) state *)
@@ -42,7 +43,7 @@ Definition win_thb (c : cfg) (s : shared) (th : thread) : bool :=
   | ACas _ ck _ | FCas _ _ ck => hk s - ck <? vmod c          (* pushes since the head load of this CAS *)
   | Idle =>
     match prog th with
-    | OTake k :: _ =>
+    | OTake k :: _ | OAcTake _ k :: _ =>
       match nth_error (ids s) k with
       | Some (v, kk) => getz (sver s) v - kk <? vmod c         (* how far the slot version ran ahead of the id *)
       | None => true
@@ -107,6 +108,24 @@ Proof. induction l; simpl; auto. destruct (fst a =? v); simpl; auto. now rewrite
 Lemma mem_id_map : forall i l, In i l -> mem_id (Wid c i) (map (Wid c) l) = true.
 Proof. intros. apply mem_id_in. now apply in_map. Qed.
 
+Lemma wrapk_0'' : wrapk c 0 = 0.
+Proof. unfold wrapk. destruct (vmod c =? 0); reflexivity. Qed.
+Lemma Wacc_empty : Wacc c empty_acc = empty_acc.
+Proof. unfold Wacc, Wid, empty_acc. simpl. now rewrite wrapk_0''. Qed.
+Lemma get_acc_map : forall l h, get_acc (map (Wacc c) l) h = Wacc c (get_acc l h).
+Proof.
+  induction l; intros h; destruct h; unfold get_acc in *; simpl; auto; unfold Wacc, Wid, empty_acc; simpl;
+    now rewrite wrapk_0''.
+Qed.
+Lemma set_acc_map : forall h x l, set_acc h (Wacc c x) (map (Wacc c) l) = map (Wacc c) (set_acc h x l).
+Proof.
+  induction h; intros x l; destruct l; simpl; auto.
+  - f_equal; [unfold Wacc, Wid, empty_acc; simpl; now rewrite wrapk_0''|]. apply (IHh x []).
+  - f_equal. apply IHh.
+Qed.
+Lemma acc_values_map : forall l, acc_values (map (Wacc c) l) = acc_values l.
+Proof. induction l as [|[b [v k]] l IH]; unfold acc_values in *; simpl; auto. destruct b; simpl; now rewrite IH. Qed.
+
 Lemma enter_alloc_comm : forall th v k,
   enter_alloc c (Wth c th) v (wrapk c k) = Wth c (enter_alloc (unb c) th v k).
 Proof. intros. unfold enter_alloc. simpl. destruct (alloc_nonempty v (tail c)); reflexivity. Qed.
@@ -115,6 +134,7 @@ Proof. intros. unfold finish_alloc. simpl. destruct (prog th) as [|[] ?]; reflex
 Lemma finish_free_comm : forall th, finish_free (Wth c th) = Wth c (finish_free th).
 Proof. intros. unfold finish_free. simpl. destruct (prog th) as [|[] ?]; reflexivity. Qed.
 End Wrap.
+
 
 (* ------------------------------------------------------------------------------------- one step commutes *)
 Section Comm.
@@ -128,8 +148,8 @@ Lemma tstep_comm : forall su ths t th, Good (unb c) su ths -> nth_error ths t = 
   win_thb c su th = true ->
   tstep c (Wsh c su) (Wth c th) = Wres_pair (tstep (unb c) su th).
 Proof.
-  intros su ths t th G Hn Hw. pose proof (g_thr _ _ _ G _ _ Hn) as (TA & TB & TP).
-  unfold win_thb in Hw. unfold tstep. destruct th as [pg p hd tk rs]. simpl in *.
+  intros su ths t th G Hn Hw. pose proof (g_thr _ _ _ G _ _ Hn) as (TA & TB & TP & TQ).
+  unfold win_thb in Hw. unfold tstep. destruct th as [pg p hd tk ac rs]. simpl in *.
   destruct p; simpl in *.
   - (* Idle *)
     destruct pg as [|o r]; [reflexivity|]. destruct o; simpl.
@@ -155,6 +175,41 @@ Proof.
         assert (MM : mem_id (v, wrapk c kk) (map (Wid c) (wins su)) = true) by (apply (mem_id_map c (v, kk)); auto).
         rewrite (mem_id_in _ _ (Hwin E)), MM. reflexivity.
     + destruct tk as [|[v k] r']; simpl; reflexivity.
+    + (* OAcTake *)
+      rewrite nth_error_map'. destruct (nth_error (ids su) k) as [[v kk]|] eqn:Hk; simpl; [|reflexivity].
+      pose proof (nth_error_In _ _ Hk) as Hin. unfold take_slot_index, take_expected, take_desired.
+      rewrite (getz_map c HM), (get_acc_map c), !acc_assign_swaps, !acc_dtor_fires_spec.
+      assert (Hrel : 0 <= getz (sver su) v - kk /\ (getz (sver su) v <> kk -> In (v, kk) (wins su))).
+      { destruct (g_ids _ _ _ G _ Hin) as [W|B].
+        - destruct (g_wins _ _ _ G _ _ W). split; [lia|auto].
+        - destruct (g_boxed _ _ _ G _ _ B) as (E & _). split; [lia|]. intros; congruence. }
+      destruct Hrel as [Hge Hwin]. apply Z.ltb_lt in Hw.
+      destruct (getz (sver su) v =? kk) eqn:E.
+      * apply Z.eqb_eq in E. rewrite E, Z.eqb_refl. simpl.
+        change (true, (v, wrapk c kk)) with (Wacc c (true, (v, kk))). rewrite (set_acc_map c).
+        destruct (fst (get_acc ac h)); simpl; unfold Wsh, Wth, set_box, inc_fin; simpl;
+          rewrite (wrapk_succ c HM), (setz_map c HM), (remove_v_map c); reflexivity.
+      * apply Z.eqb_neq in E.
+        assert (E' : (wrapk c (getz (sver su) v) =? wrapk c kk) = false).
+        { apply Z.eqb_neq. intro X. apply E. apply (wrapk_inj c HM); auto; lia. }
+        rewrite E'. simpl.
+        change (false, (v, wrapk c kk)) with (Wacc c (false, (v, kk))). rewrite (set_acc_map c).
+        assert (MM : mem_id (v, wrapk c kk) (map (Wid c) (wins su)) = true) by (apply (mem_id_map c (v, kk)); auto).
+        destruct (fst (get_acc ac h)); simpl; unfold Wsh, Wth, set_box, inc_fin; simpl;
+          rewrite (mem_id_in _ _ (Hwin E)), MM; reflexivity.
+    + (* OAcMove *)
+      destruct (Nat.eqb h g); [reflexivity|]. rewrite !(get_acc_map c), !acc_assign_swaps.
+      unfold Wth. simpl. now rewrite !(set_acc_map c).
+    + (* OAcCtor *)
+      rewrite (get_acc_map c). simpl. destruct (Nat.eqb h g || fst (get_acc ac h)); [reflexivity|].
+      unfold do_ctor. simpl. rewrite (get_acc_map c), !acc_ctor_spec. unfold Wth. simpl.
+      rewrite (set_acc_map c).
+      change (false, Wid c (snd (get_acc ac g))) with (Wacc c (false, snd (get_acc ac g))).
+      rewrite (set_acc_map c). reflexivity.
+    + (* OAcDrop *)
+      rewrite (get_acc_map c), !acc_dtor_fires_spec. simpl. destruct (fst (get_acc ac h)); [|reflexivity].
+      unfold Wth, Wsh, inc_fin. simpl.
+      rewrite <- (Wacc_empty c) at 1. rewrite (set_acc_map c). reflexivity.
   - reflexivity.
   - (* ACas *)
     destruct TP as (P1 & P2 & P3). apply Z.ltb_lt in Hw.
@@ -184,6 +239,7 @@ Proof.
     + reflexivity.
   - (* ESlot *) unfold emplace_slot_index, emplace_version. unfold Wsh, Wth, set_box. simpl.
     rewrite (setz_map c HM), map_app. reflexivity.
+  - (* DLoad *) reflexivity.
 Qed.
 End Comm.
 
@@ -239,7 +295,7 @@ End Sim.
 Lemma map_fst_Wid : forall c l, map fst (map (Wid c) l) = map fst l.
 Proof. intros. rewrite map_map. apply map_ext. reflexivity. Qed.
 Lemma owned_thread_W : forall c th, owned_thread (Wth c th) = owned_thread th.
-Proof. intros. unfold owned_thread. simpl. rewrite !map_fst_Wid. destruct (tpc th); reflexivity. Qed.
+Proof. intros. unfold owned_thread. simpl. rewrite !map_fst_Wid, acc_values_map. destruct (tpc th); reflexivity. Qed.
 Lemma owners_W : forall c s, owners (Wst c s) = owners s.
 Proof.
   intros. unfold owners. simpl. rewrite map_fst_Wid. f_equal.
@@ -248,7 +304,7 @@ Qed.
 Lemma held_values_W : forall c s, held_values (Wst c s) = held_values s.
 Proof.
   intros. unfold held_values. simpl. rewrite map_fst_Wid. f_equal.
-  induction (threads s); simpl; auto. now rewrite !map_fst_Wid, IHl.
+  induction (threads s); simpl; auto. now rewrite !map_fst_Wid, acc_values_map, IHl.
 Qed.
 Lemma quiescent_W : forall c s, quiescent (Wst c s) = quiescent s.
 Proof.
@@ -289,9 +345,11 @@ Proof.
     assert (Wm : forall l, map (wrapk c) l = l). { induction l; simpl; auto. now rewrite Wk, IHl. }
     assert (Wr : forall l, map (Wres c) l = l).
     { induction l as [|r l IH]; simpl; auto. rewrite IH. f_equal. destruct r; simpl; rewrite ?Wk; reflexivity. }
+    assert (Wa : forall l, map (Wacc c) l = l).
+    { induction l as [|[b [v k]] l IH]; simpl; auto. unfold Wacc at 1, Wid. simpl. now rewrite Wk, IH. }
     assert (Wt : forall l, map (Wth c) l = l).
-    { induction l as [|th l IH]; simpl; auto. rewrite IH. f_equal. destruct th as [pg p hd tk rs]. unfold Wth. simpl.
-      rewrite !Wi, Wr. f_equal. destruct p; simpl; rewrite ?Wk; reflexivity. }
+    { induction l as [|th l IH]; simpl; auto. rewrite IH. f_equal. destruct th as [pg p hd tk ac rs]. unfold Wth. simpl.
+      rewrite !Wi, Wr, Wa. f_equal. destruct p; simpl; rewrite ?Wk; reflexivity. }
     destruct sw as [s ths]. unfold Wst. simpl. rewrite Wt. f_equal. destruct s. unfold Wsh. simpl.
     now rewrite Wk, Wm, !Wi.
   - assert (E : sw = Wst c su).
@@ -358,7 +416,7 @@ Proof.
   rewrite E in H1, Ehv, Ehk |- *. simpl in *. rewrite nth_error_map' in H1.
   destruct (nth_error (threads su) t) as [u|] eqn:N1; [|discriminate]. simpl in H1. inversion H1; subst th. clear H1.
   simpl in Hpc. destruct (tpc u) eqn:Hu; simpl in Hpc; try discriminate. inversion Hpc; subst cv0 ck nx0. clear Hpc.
-  destruct (g_thr _ _ _ G _ _ N1) as (_ & _ & P). rewrite Hu in P. simpl in P. destruct P as (P1 & P2 & P3).
+  destruct (g_thr _ _ _ G _ _ N1) as (_ & _ & P & _). rewrite Hu in P. simpl in P. destruct P as (P1 & P2 & P3).
   assert (Ek : hk (sh su) = ck0).
   { apply (wrapk_inj' c); auto. destruct HW as [H0|[HM _]]; [now left|right]. split; auto. split; [lia|].
     specialize (Hwin HM). unfold win_stb in Hwin. rewrite forallb_forall in Hwin.
